@@ -505,6 +505,14 @@ async fn fs_point(path: &str) {
     n.notified().await;
 }
 
+/// Hold point in front of the rename that replaces an existing file `path` (no-op if it does not
+/// exist or gating is off).
+pub async fn hold_replacement_of(path: &str) {
+    if std::path::Path::new(path).exists() {
+        fs_point(path).await;
+    }
+}
+
 /// `tokio::fs::write(path, data)` spelled as its two steps, with the seam in between.
 pub async fn write_file_in_two_steps(path: &str, data: &[u8]) -> std::io::Result<()> {
     use tokio::io::AsyncWriteExt;
